@@ -454,7 +454,8 @@ pub fn run(ctx: &mut Ctx) {
             }
         }
     }
-    // ---- threads: 8 threads x a few SM2 signatures each; scalars must not repeat across threads
+    // ---- threads: 8 threads x (16 SM2 signatures + 12 SM9 master keys) and the spawning thread; scalars must not
+    // repeat across threads
     if ctx.shard == 0 {
         let d = fx.d2.clone();
         let mut all: Vec<Vec<[u8; 32]>> = vec![];
@@ -475,8 +476,30 @@ pub fn run(ctx: &mut Ctx) {
                             }
                         }
                     }
+                    // scalars of the SM9 generator and of SM2 key generation on this thread (the key is the scalar)
+                    for _ in 0..6 {
+                        if let Ok(mk) = std::panic::catch_unwind(|| gm_sm9::key::Sm9EncMasterKey::master_key_generate()) {
+                            out.push(r9::b32(&r9::from_limbs(&mk.ke)));
+                        }
+                        if let Ok(mk) = std::panic::catch_unwind(|| gm_sm9::key::generate_sign_master_key()) {
+                            out.push(r9::b32(&r9::from_limbs(&mk.ks)));
+                        }
+                    }
                     out
                 }));
+            }
+            // the spawning thread draws as well: a per-thread generator cloned from one seed repeats here
+            {
+                let mut out = vec![];
+                for _ in 0..6 {
+                    if let Outcome::Ret(mk) = guard(|| gm_sm9::key::Sm9EncMasterKey::master_key_generate()) {
+                        out.push(r9::b32(&r9::from_limbs(&mk.ke)));
+                    }
+                    if let Outcome::Ret(mk) = guard(|| gm_sm9::key::generate_sign_master_key()) {
+                        out.push(r9::b32(&r9::from_limbs(&mk.ks)));
+                    }
+                }
+                all.push(out);
             }
             for h in hs {
                 if let Ok(v) = h.join() {
@@ -487,12 +510,12 @@ pub fn run(ctx: &mut Ctx) {
         let total: usize = all.iter().map(|v| v.len()).sum();
         ctx.evals(total as u64);
         ctx.class_n("threads", total as u64);
-        if total != 128 {
+        if total != 128 + 9 * 12 {
             ctx.violation("sm2.sign:threads:nonce-used!=nonce-drawn-or-failure", json!({"ok": total}));
         }
         for v in all {
             for b in v {
-                ctx.unique("sm2.sign/thread", &b[..16]);
+                ctx.unique("scalar/thread", &b[..16]);
             }
         }
     }
